@@ -65,7 +65,7 @@ TimeOf(c, j) ==
     [] c = 5 -> LET d == Data(6, 30) IN <<(d[1] * 256) + (IF j = 1 THEN 16 ELSE 17), (d[3] * 256) + d[4], d[5] % 16, 0>>
 TimeU == UNION {{TimeBE(TimeOf(x % 10, 1)), TimeBE(TimeOf(x % 10, 2))} : x \in Cases}
 
-\* ---- HOTP / TOTP values: one HMAC per (vKey, 8 octets), evaluated once
+\* ---- HOTP / TOTP values: one HMAC per (key, 8 octets), evaluated once
 MacU == IF Family = "hotp" THEN CtrU ELSE IF Family = "totp" THEN TimeU ELSE {}
 \* (an explicit function built with :> / @@: TLC pre-evaluates it once with the constants; a definition
 \*  wrapped in TLCEval is NOT pre-evaluated and a [x \in S |-> ...] is re-evaluated at every application)
@@ -121,7 +121,7 @@ Step(code, A, rec) ==
   /\ hHist' = Append(hHist, rec) /\ hPath' = hPath \o "." \o code /\ hN' = hN + 1 /\ UNCHANGED hCase
 
 Cls == hCase % 10
-Wrong(o) == [o EXCEPT ![Len(o)] = 48 + ((o[Len(o)] - 47) % 10)]          \* last vDigit + 1 mod 10
+Wrong(o) == [o EXCEPT ![Len(o)] = 48 + ((o[Len(o)] - 47) % 10)]          \* last digit + 1 mod 10
 Short(o) == SubSeq(o, 1, Len(o) - 1)
 Long(o) == Append(o, 48)
 NextDigit(d) == IF d = 8 THEN 6 ELSE d + 1
